@@ -829,4 +829,185 @@ theorem MemSys.allOk_mono (ops : List Op) : ∀ {s : MemSys} {M' : Nat}, s.lim.m
     | err c' s' => simp [MemSys.AllOk, hst] at h
     | panic p => simp [MemSys.AllOk, hst] at h
 
+/-! ## TransformStream::write -/
+
+/-- Invariant of the buffer part of a `TransformStream` under limit `M`. -/
+structure TSInv (M : Nat) (t : TS) : Prop where
+  lenLe : t.buffer.len ≤ t.buffer.cap
+  /-- the buffer's capacity has been charged (other users of the limiter may have charged more) -/
+  charged : t.buffer.cap ≤ t.lim.usage
+  held : t.buffer.cap ≤ M
+  max : t.lim.max = M
+
+theorem Arena.append_ok_tsinv {M : Nat} {l l' : Limiter} {a a' : Arena} {bs : Bytes}
+    (h : Arena.append l a bs = .ok (l', a')) (h1 : a.len ≤ a.cap) (h2 : a.cap ≤ l.usage)
+    (h3 : a.cap ≤ M) (h4 : l.max = M) :
+    a'.len ≤ a'.cap ∧ a'.cap ≤ l'.usage ∧ a'.cap ≤ M ∧ l'.max = M ∧ a'.data = a.data ++ bs := by
+  obtain ⟨p1, p2, p3, p4, p5, p6⟩ := Arena.append_ok h
+  rcases p6 with ⟨e, pc⟩ | ⟨pu, pc⟩
+  · subst e; exact ⟨p5, by omega, by omega, by omega, p2⟩
+  · exact ⟨p5, by omega, by omega, by omega, p2⟩
+
+/-- A successful `write`: the invariant is kept, the pending bytes are exactly the unconsumed tail of
+    (pending ++ data), and they fit in the limit. -/
+theorem TS.write_ok {M : Nat} {t t' : TS} {data : Bytes} {consumed : Bytes → Nat}
+    (hi : TSInv M t) (hc : ∀ c, consumed c ≤ c.length) (h : t.write data consumed = .ok t') :
+    TSInv M t' ∧ t'.pending = (t.pending ++ data).drop (consumed (t.pending ++ data)) ∧
+    t'.retained ≤ M := by
+  obtain ⟨h1, h2, h3, h4⟩ := hi
+  have key : ∀ t'' : TS, TSInv M t'' → t''.retained ≤ M := by
+    intro t'' i
+    have := i.lenLe; have := i.held
+    simp only [TS.retained, TS.pending]
+    split
+    · simp only [Arena.len] at *; omega
+    · simp
+  suffices hs : TSInv M t' ∧ t'.pending = (t.pending ++ data).drop (consumed (t.pending ++ data)) from
+    ⟨hs.1, hs.2, key t' hs.1⟩
+  unfold TS.write at h
+  split at h
+  · -- data was buffered: append, parse the whole buffer, shift
+    rename_i hb
+    split at h
+    · cases h
+    · cases h
+    · rename_i l a heq
+      obtain ⟨q1, q2, q3, q4, q5⟩ := Arena.append_ok_tsinv heq h1 h2 h3 h4
+      simp only at h
+      split at h
+      · rename_i hn
+        split at h
+        · rename_i a' hsh
+          obtain ⟨s1, s2, s3, s4⟩ := Arena.shift_ok hsh
+          cases h
+          refine ⟨⟨by simp only; omega, by simp only; omega, by simp only; omega, q4⟩, ?_⟩
+          simp only [TS.pending, hb, if_true, s3, q5]
+        · rename_i hsh; exact absurd hsh Arena.shift_not_err
+        · cases h
+      · rename_i hn
+        cases h
+        refine ⟨⟨q1, q2, q3, q4⟩, ?_⟩
+        have := hc a.data
+        simp only [TS.pending, hb, if_true, q5] at *
+        rw [List.drop_eq_nil_of_le (by omega)]
+        simp
+  · rename_i hb
+    simp only at h
+    split at h
+    · rename_i hn
+      split at h
+      · rename_i l a heq
+        have h1' : ({ t.buffer with data := [] } : Arena).len ≤ t.buffer.cap := by simp [Arena.len]
+        obtain ⟨q1, q2, q3, q4, q5⟩ := Arena.append_ok_tsinv (M := M) heq h1' h2 h3 h4
+        cases h
+        refine ⟨⟨q1, q2, q3, q4⟩, ?_⟩
+        simp only [TS.pending, hb, q5]
+        simp
+      · cases h
+      · cases h
+    · rename_i hn
+      cases h
+      refine ⟨⟨h1, h2, h3, h4⟩, ?_⟩
+      have := hc data
+      simp only [TS.pending, hb]
+      simp only [Bool.false_eq_true, if_false, List.nil_append]
+      rw [List.drop_eq_nil_of_le (by omega)]
+
+/-- `write` never hits the range panic of `Arena::shift`: it shifts by `consumed < chunk.len()`. -/
+theorem TS.write_no_shift_panic {t : TS} {data : Bytes} {consumed : Bytes → Nat} :
+    t.write data consumed ≠ .panic .shiftRange := by
+  intro h
+  unfold TS.write at h
+  split at h
+  · split at h
+    · rename_i p heq
+      cases h
+      rcases Arena.append_panic heq with ⟨e, _⟩ | ⟨e, _⟩ <;> cases e
+    · cases h
+    · simp only at h
+      split at h
+      · rename_i hn
+        split at h
+        · cases h
+        · cases h
+        · rename_i p hsh
+          cases h
+          have := (Arena.shift_panic hsh).2
+          simp only [Arena.len] at this
+          omega
+      · cases h
+  · simp only at h
+    split at h
+    · split at h
+      · cases h
+      · cases h
+      · rename_i p heq
+        cases h
+        simp only [Arena.initWith] at heq
+        rcases Arena.append_panic heq with ⟨e, _⟩ | ⟨e, _⟩ <;> cases e
+    · cases h
+
+/-- Conservation over a sequence of writes that all succeed: bytes in = bytes out + bytes retained,
+    and the retained bytes fit in the limit. -/
+theorem TS.run_last_ok {M : Nat} {consumed : Bytes → Nat} (hc : ∀ c, consumed c ≤ c.length)
+    (ws : List Bytes) : ∀ (t : TS) (out0 : Nat) (t' : TS) (out : Nat), TSInv M t →
+    (t.run consumed ws out0).getLast? = some (.ok, t', out) →
+    TSInv M t' ∧ t'.retained + out = t.retained + out0 + (ws.map List.length).sum ∧
+    t'.retained ≤ M := by
+  induction ws with
+  | nil => intro t out0 t' out _ h; simp [TS.run] at h
+  | cons d rest ih =>
+    intro t out0 t' out hi h
+    cases hw : t.write d consumed with
+    | ok t1 =>
+      obtain ⟨i1, p1, r1⟩ := TS.write_ok hi hc hw
+      have hcons : t1.retained + t.writeOut d consumed = t.retained + d.length := by
+        have := hc (t.pending ++ d)
+        simp only [TS.retained, TS.writeOut, p1, List.length_drop, List.length_append] at *
+        omega
+      simp only [TS.run, hw] at h
+      cases hr : t1.run consumed rest (out0 + t.writeOut d consumed) with
+      | nil =>
+        rw [hr] at h
+        simp only [List.getLast?_singleton, Option.some.injEq, Prod.mk.injEq, true_and] at h
+        obtain ⟨rfl, rfl⟩ := h
+        have hrest : rest = [] := by
+          cases rest with
+          | nil => rfl
+          | cons d2 r2 =>
+            simp only [TS.run] at hr
+            split at hr <;> cases hr
+        subst hrest
+        refine ⟨i1, ?_, r1⟩
+        simp only [List.map_cons, List.sum_cons, List.map_nil, List.sum_nil]
+        omega
+      | cons y ys =>
+        rw [hr, List.getLast?_cons_cons] at h
+        rw [← hr] at h
+        obtain ⟨i2, p2, r2⟩ := ih t1 _ t' out i1 h
+        refine ⟨i2, ?_, r2⟩
+        simp only [List.map_cons, List.sum_cons]
+        omega
+    | err c t1 =>
+      simp only [TS.run, hw, List.getLast?_singleton, Option.some.injEq, Prod.mk.injEq] at h
+      exact absurd h.1 (by simp)
+    | panic p =>
+      simp only [TS.run, hw, List.getLast?_singleton, Option.some.injEq, Prod.mk.injEq] at h
+      exact absurd h.1 (by simp)
+
+theorem scanConsumedGo_le (bs : Bytes) : ∀ (pos state start : Nat), start ≤ pos →
+    scanConsumedGo bs pos state start ≤ pos + bs.length := by
+  induction bs with
+  | nil => intro pos state start h; simp only [scanConsumedGo]; split <;> simp <;> omega
+  | cons b rest ih =>
+    intro pos state start h
+    simp only [scanConsumedGo, List.length_cons]
+    repeat' split
+    all_goals (refine Nat.le_trans (ih _ _ _ (by omega)) (by omega))
+
+/-- The scanner oracle of lane `memts` is a legal parser answer. -/
+theorem scanConsumed_le (c : Bytes) : scanConsumed c ≤ c.length := by
+  have := scanConsumedGo_le c 0 0 0 (Nat.le_refl 0)
+  simpa [scanConsumed] using this
+
 end LolHtml.Model.Memory
